@@ -359,7 +359,7 @@ func checkLin(recs []*Rec, init linState, slots map[int]int, cacheFam bool, now,
 	inf := int64(maxSeq) + 10
 	for _, r := range recs {
 		switch r.Op.K {
-		case MSize, CCount, XAdvance, XTick, CDeleteExpired, XPass, CDefaultExpiration, CSetCallback, CSetDefaultExpiration, XBulkInsert, XBulkDelete:
+		case MSize, CCount, XAdvance, XTick, XGC, CDeleteExpired, XPass, CDefaultExpiration, CSetCallback, CSetDefaultExpiration, XBulkInsert, XBulkDelete:
 			continue
 		}
 		slot := -1
